@@ -27,12 +27,16 @@ Definition last_byte (s : bytes) : option ascii := first_byte (rev s).
 Definition opt_is (o : option ascii) (c : ascii) : bool :=
   match o with Some a => Ascii.eqb a c | None => false end.
 
-(* isLikelyJSON: len(str) >= 5, first/last byte are {} or [], and a double quote occurs *)
-Definition is_likely_json (s : bytes) : bool :=
+(* isLikelyJSON as found: len(str) >= 5, first/last byte are {} or [], and a double quote occurs *)
+Definition is_likely_json_orig (s : bytes) : bool :=
   (5 <=? List.length s)%nat
   && ((opt_is (first_byte s) ch_lbrace && opt_is (last_byte s) ch_rbrace)
       || (opt_is (first_byte s) ch_lbrack && opt_is (last_byte s) ch_rbrack))
   && existsb (Ascii.eqb ch_dquote) s.
+
+(* isLikelyJSON (FIXED code, fixes/C19-json-embedded-ws.diff): the same test on
+   strings.TrimSpace(str) *)
+Definition is_likely_json (s : bytes) : bool := is_likely_json_orig (trim_space s).
 
 Section J.
 Variable valid : bytes -> bool.
@@ -69,6 +73,19 @@ Fixpoint all_strings (v : jv) : list bytes :=
   | JStr s emb => s :: match emb with Some e => all_strings e | None => [] end
   | JArr l => flat_map all_strings l
   | JObj l => flat_map (fun kv => all_strings (snd kv)) l
+  | _ => []
+  end.
+
+(* findURLs as found (isLikelyJSON on the untrimmed string) *)
+Fixpoint find_urls_orig (valid : bytes -> bool) (v : jv) : list bytes :=
+  match v with
+  | JStr s emb =>
+      if valid s then [s]
+      else if is_likely_json_orig s then
+             match emb with Some e => find_urls_orig valid e | None => [] end
+           else []
+  | JArr l => flat_map (find_urls_orig valid) l
+  | JObj l => flat_map (fun kv => find_urls_orig valid (snd kv)) l
   | _ => []
   end.
 
